@@ -20,10 +20,15 @@ type faultCase struct {
 	Op    string // readReq readRes writeReq writeRes marshal unmarshal encode decode | cancel
 	N     int    // 1-based occurrence
 	K     int    // calls in flight
+	CB    bool   // the failing side's first gated call is issued from inside its ForRemotes callback
 }
 
 func (f faultCase) String() string {
-	return fmt.Sprintf("%s/%s %s.%s#%d k=%d", f.API, f.Codec, f.Side, f.Op, f.N, f.K)
+	cb := ""
+	if f.CB {
+		cb = " in-callback"
+	}
+	return fmt.Sprintf("%s/%s %s.%s#%d k=%d%s", f.API, f.Codec, f.Side, f.Op, f.N, f.K, cb)
 }
 
 type faultOutcome struct {
@@ -118,6 +123,30 @@ func runFaultCase[T any](codec Codec[T], fc faultCase, record bool) *faultOutcom
 	for i := 0; i < fc.K; i++ {
 		flights = append(flights, launch("A", true, 100+i), launch("B", true, 200+i))
 	}
+	if fc.CB {
+		// the canonical way to use a remote: call it from inside the enumeration callback (which is
+		// exclusive by design, so one such call per side); the link then ends while it is in flight
+		side, id := p.A, 150
+		if fc.Side == "B" {
+			side, id = p.B, 250
+		}
+		f := &flight{from: fc.Side, gate: true, done: make(chan struct{})}
+		entered := make(chan struct{})
+		go func() {
+			defer close(f.done)
+			_ = side.Reg.ForRemotes(func(_ string, r Remote) error {
+				close(entered)
+				v, e := r.Gate(context.Background(), id)
+				f.res = callResult{true, v, e}
+				return nil
+			})
+		}()
+		select {
+		case <-entered:
+		case <-time.After(watchdog):
+		}
+		flights = append(flights, f)
+	}
 	// keep the link busy until the fault fires (or the budget is used up)
 	fired := ""
 	busyDeadline := time.Now().Add(2 * time.Second)
@@ -149,6 +178,8 @@ busy:
 			p.B.Svc.OpenGate(100 + k)
 			p.A.Svc.OpenGate(200 + k)
 		}
+		p.B.Svc.OpenGate(150)
+		p.A.Svc.OpenGate(250)
 		p.Shutdown()
 		return out
 	}
@@ -158,6 +189,8 @@ busy:
 			p.B.Svc.OpenGate(100 + k)
 			p.A.Svc.OpenGate(200 + k)
 		}
+		p.B.Svc.OpenGate(150)
+		p.A.Svc.OpenGate(250)
 		p.Shutdown()
 		return out
 	}
@@ -184,6 +217,18 @@ busy:
 		}
 	case <-time.After(watchdog):
 		out.problems16 = append(out.problems16, "Link did not return after the link ended")
+	}
+	// C03: the link of the failing side has ended: its in-flight calls return now, before anybody
+	// cancels anything or closes the transport
+	for _, f := range flights {
+		if f.from != fc.Side {
+			continue
+		}
+		select {
+		case <-f.done:
+		case <-time.After(watchdog):
+			out.problems03 = append(out.problems03, fmt.Sprintf("an in-flight call from %s (gate=%v) had not returned %v after its link ended (before the application tore anything down)", f.from, f.gate, watchdog))
+		}
 	}
 	// the application now tears the connection down (as the README asks): cancel + close transport
 	victim.Cancel()
@@ -229,6 +274,8 @@ busy:
 		p.B.Svc.OpenGate(100 + k)
 		p.A.Svc.OpenGate(200 + k)
 	}
+	p.B.Svc.OpenGate(150)
+	p.A.Svc.OpenGate(250)
 	p.wg.Wait()
 	return out
 }
@@ -307,6 +354,10 @@ func runFaultSuite(rep *Report, tier string, seed int64, prop string) {
 			for r := 0; r < repeat; r++ {
 				for _, fc := range faultCases(jsonRaw(), api, k, maxPer) {
 					run(fc, runFaultCase(jsonRaw(), fc, false))
+					if r == 0 && fc.N <= 2 {
+						fc.CB = true
+						run(fc, runFaultCase(jsonRaw(), fc, false))
+					}
 				}
 			}
 			if tier == "thorough" {
